@@ -11,8 +11,6 @@ From CGV Require Import Base.PyBase Base.PyVal Base.NxGraph Base.PyGen Gen.Reade
 Import ListNotations.
 Open Scope Z_scope.
 
-Record tstate := { t_cur : option pystr; t_pend : Z; t_names : list pystr; t_flag : bool }.
-Definition t_init : tstate := {| t_cur := None; t_pend := 1; t_names := []; t_flag := false |}.
 (** [t_flag]: the last structural token was "(" (the anchor on top of the stack IS the current node) *)
 Definition tstep (s : tstate) (t : tok) : option tstate :=
   match t with
